@@ -16,6 +16,7 @@ IDX_FAR = [4095, 4096, 4097, 65535, 65536, 2**31 - 1, 2**32 - 2]
 LENS = [0, 1, 2, 3, 5, 8, 13, 20, 21, 4096, 4097, 65536, 2**31, 2**32 - 2, 2**32 - 1]
 CMP_FIELDS = ("r", "len", "lw", "ext", "keys")
 NEGZERO_SIG = "sort-comparator-negzero-treated-as-less"
+MQUICK = 1500
 
 
 # ----------------------------------------------------------------------------- generators
@@ -120,7 +121,12 @@ def fields(line):
     return d
 
 
-def run_sharded(ctx, exe, lines, shards=12, timeout=900):
+INCONCLUSIVE = []
+
+
+def run_sharded(ctx, exe, lines, shards=12, timeout=1500):
+    """Feed lines to `shards` processes. A shard that dies or times out is retried line by line with
+    a generous per-line timeout; a line that still times out is INCONCLUSIVE (recorded, not judged)."""
     if not lines:
         return []
     shards = max(1, min(shards, len(lines) // 20 + 1))
@@ -128,9 +134,20 @@ def run_sharded(ctx, exe, lines, shards=12, timeout=900):
 
     def one(ch):
         rc, out, err = ctx.run_lines([exe], ch, timeout=timeout)
-        if len(out) != len(ch):
-            out = out + ["ERR harness died rc=%s %s" % (rc, err[-200:].replace("\n", " "))] * (len(ch) - len(out))
-        return out
+        if len(out) == len(ch):
+            return out
+        # keep what was answered, redo the rest one by one
+        res = list(out)
+        for l in ch[len(out):]:
+            rc1, o1, e1 = ctx.run_lines([exe], [l], timeout=300)
+            if o1:
+                res.append(o1[0])
+            elif rc1 == 124:
+                INCONCLUSIVE.append(l[:300])
+                res.append("TIMEOUT")
+            else:
+                res.append("ERR harness died rc=%s %s" % (rc1, e1[-300:].replace("\n", " ")))
+        return res
     with ThreadPoolExecutor(max_workers=shards) as ex:
         outs = list(ex.map(one, chunks))
     res = [None] * len(lines)
@@ -169,6 +186,8 @@ def check_seqs(ctx, env, named_seqs, label):
         fm = fields(model[k]) if model[k] else None
         by_name.setdefault(name, {})[vn] = (fi, fm, lines[k], impl[k], model[k])
         ctx.count(1)
+        if impl[k] == "TIMEOUT" or model[k] == "TIMEOUT":
+            continue
         if not impl[k] or impl[k].startswith(("ERR", "PANIC", "BADOP")):
             problems.append({"kind": "impl-error", "name": name, "variant": vn, "line": lines[k], "impl": impl[k], "model": model[k]})
             continue
@@ -358,6 +377,8 @@ def check_sort(ctx, env, cases):
         ctx.count(1)
         env.stats["sort_cases"][c["cmp"] + ("+" + c["mutate"] if c["mutate"] else "")] = env.stats["sort_cases"].get(c["cmp"] + ("+" + c["mutate"] if c["mutate"] else ""), 0) + 1
         rep = {"kind": "input", "case": c, "line": line, "observed": o}
+        if o == "TIMEOUT":
+            continue
         if o is None or o.startswith(("ERR", "PANIC", "BADOP")):
             ctx.violation("sort-crash:%s:%s:%s" % (c["recv"], c["cmp"], c["mutate"]), "sort crashed / escaped: %s" % (o or "")[:200], rep)
             agree = False
@@ -434,13 +455,23 @@ METHODS = [
     ("indexOf", "3,{valueOf:function(){setLen(self,1);return 0}}"), ("includes", "undefined,{valueOf:function(){setLen(self,1);return 0}}"),
     ("fill", "7,{valueOf:function(){setLen(self,1);return 0}},3"), ("lastIndexOf", "2,{valueOf:function(){setLen(self,1);return 3}}"),
     ("slice", "{valueOf:function(){setLen(self,1);return 0}}"), ("copyWithin", "0,{valueOf:function(){setLen(self,2);return 1}}"),
+    ("indexOf", "3,{valueOf:function(){setLen(self,0);return 3}}"), ("includes", "3,{valueOf:function(){setLen(self,0);return 3}}"),
+    ("lastIndexOf", "1,{valueOf:function(){setLen(self,0);return -1}}"), ("fill", "7,0,{valueOf:function(){setLen(self,0);return 4}}"),
+    ("with", "{valueOf:function(){setLen(self,1);return 2}},5"), ("at", "{valueOf:function(){setLen(self,1);return 2}}"),
+    ("splice", "{valueOf:function(){setLen(self,1);return 0}},1"), ("toSpliced", "{valueOf:function(){setLen(self,1);return 1}},1,9"),
+    ("slice", "{valueOf:function(){setLen(self,1);return 3}}"), ("slice", "0,{valueOf:function(){setLen(self,1);return 4}}"),
+    ("toSpliced", "{valueOf:function(){setLen(self,1);return 3}},1"), ("toSpliced", "0,{valueOf:function(){setLen(self,0);return 2}}"),
+    ("splice", "{valueOf:function(){setLen(self,1);return 3}},1"), ("splice", "0,{valueOf:function(){setLen(self,0);return 2}},7"),
+    ("copyWithin", "0,1,{valueOf:function(){setLen(self,1);return 4}}"), ("fill", "7,{valueOf:function(){setLen(self,0);return 2}}"),
+    ("lastIndexOf", "1,{valueOf:function(){setLen(self,2);return 4}}"), ("includes", "1,{valueOf:function(){put(self,7,1);return 0}}"),
+    ("indexOf", "1,{valueOf:function(){put(self,7,1);return 6}}"),
 ]
 SPECS = [
     [], [1], [1, 2, 3, 4, 5], [1, 2, "_", 4], ["_", "_", 3], [1, "u", 3, "u"], [1, 2, 3, "_", "_"], [3, 1, 2, 2, 1],
     [1, ["acc", 5], 3], [["nc", 1], 2, 3], [1, 2, ["nc", 3]], [["t", 1], ["t", 2], "_", ["t", 3]], ["_", 2, "_", 4, "_", 6, "_"],
 ]
 PROTOS = [[], [[2, 99]], [[0, 99], [3, 99], [4, 98]]]
-KINDS = ["dense", "sparse", "frozen", "arraylike", "goslice"]
+KINDS = ["dense", "sparse", "frozen", "nonext", "arraylike", "goslice"]
 GOSLICE_OK = {"indexOf", "lastIndexOf", "includes", "join", "toString", "at", "slice", "concat", "every", "some", "forEach", "map", "filter",
               "reduce", "reduceRight", "find", "findIndex", "findLast", "findLastIndex", "keys", "values", "entries", "flat", "flatMap",
               "with", "toReversed", "toSorted", "toSpliced", "reverse", "fill", "copyWithin", "sort"}
@@ -450,9 +481,9 @@ def strip_flags(s):
     return s.replace("!c", "").replace("!w", "").replace("!e", "")
 
 
-def check_methods(ctx, env, rng, budget):
+def gen_method_cases(rng, budget):
     cases = []
-    for kind in ["dense", "sparse", "frozen", "arraylike", "goslice"]:
+    for kind in KINDS:
         for spec in SPECS:
             plain = all(not isinstance(e, list) and e not in ("_", "u") for e in spec)
             for proto in PROTOS:
@@ -466,15 +497,21 @@ def check_methods(ctx, env, rng, budget):
         exhaustive = False
     else:
         exhaustive = True
+    return cases, exhaustive
+
+
+def check_methods(ctx, env, cases):
     lines = ["meth " + json.dumps(c, separators=(",", ":")) for c in cases]
     outs = run_sharded(ctx, env.harness, lines)
     for c, line, o in zip(cases, lines, outs):
         ctx.count(1)
         env.stats["method_cases"][c["kind"]] = env.stats["method_cases"].get(c["kind"], 0) + 1
         rep = {"kind": "input", "case": c, "line": line, "observed": o}
+        if o == "TIMEOUT":
+            continue
         if o is None or o.startswith(("ERR", "PANIC", "BADOP")) or " @@ " not in o:
             sig = "method-crash:%s:%s" % (c["kind"], c["meth"])
-            if "valueOf" in c["args"] and "setLen(" in c["args"] and c["kind"] == "dense" and c["meth"] in ("lastIndexOf", "fill", "copyWithin", "includes"):
+            if "valueOf" in c["args"] and "setLen(" in c["args"] and c["kind"] in ("dense", "nonext") and c["meth"] in ("lastIndexOf", "fill", "copyWithin", "includes", "indexOf", "toSpliced", "splice", "slice"):
                 sig = "fastpath-stale-length-after-valueOf:" + c["meth"]
             ctx.violation(sig, "method call crashed the host: %s(%s) on %s: %s" % (c["meth"], c["args"][:60], json.dumps(c["spec"]), (o or "")[:160]), rep)
             continue
@@ -498,12 +535,12 @@ def check_methods(ctx, env, rng, budget):
         if bad:
             rep["expected"] = bad[1]
             sig = "method-mismatch:%s:%s(%s)" % (c["kind"], c["meth"], c["args"][:30])
-            if mutating_args and "valueOf" in c["args"] and c["kind"] == "dense" and c["meth"] in ("lastIndexOf", "fill", "copyWithin", "includes"):
+            if mutating_args and "valueOf" in c["args"] and c["kind"] in ("dense", "nonext") and c["meth"] in ("lastIndexOf", "fill", "copyWithin", "includes", "indexOf", "toSpliced", "splice", "slice"):
                 sig = "fastpath-stale-length-after-valueOf:" + c["meth"]
-            elif c["kind"] == "frozen" and c["meth"] == "splice" and c["spec"] == []:
+            elif c["kind"] in ("frozen", "nonext") and c["meth"] == "splice":
                 sig = "splice-fastpath-adds-elements-to-nonextensible-array"
             ctx.violation(sig, "%s receiver, %s(%s) [%s]: %s  expected  %s" % (c["kind"], c["meth"], c["args"][:60], bad[0], subj[:160], bad[1][:160]), rep)
-    return exhaustive, len(cases)
+    return len(cases)
 
 
 # ----------------------------------------------------------------------------- corpus
@@ -542,12 +579,13 @@ def main(ctx):
     thorough = ctx.tier == "thorough"
 
     ctx.regen()
-    ok, errs = ctx.lake_build(["GojaModel.C07.Props", "GojaModel.C07.Tie", "model_c07"])
+    ok, errs = ctx.lake_build(["GojaModel.C07.Props", "GojaModel.C07.PropsElem", "GojaModel.C07.Tie", "model_c07"])
     if ok:
-        ctx.audit("GojaModel.C07.Props", expect_min=20)
+        ctx.audit("GojaModel.C07.Props", expect_min=22)
+        ctx.audit("GojaModel.C07.PropsElem", expect_min=14)
         ctx.audit("GojaModel.C07.Tie", expect_min=1)
         if thorough:
-            ctx.leanchecker("GojaModel.C07.Props")
+            ctx.leanchecker("GojaModel.C07.PropsElem")
     env.model = ctx.model_exe() if ok and os.path.exists(ctx.model_exe()) else None
     env.harness = ctx.go_build()
     if env.harness is None:
@@ -557,6 +595,7 @@ def main(ctx):
     # 1. corpus
     corpus = load_corpus()
     seqs = []
+    corpus_meth = []
     for fn, e in corpus:
         if e.get("type") == "direct":
             run_direct(ctx, env, e, fn)
@@ -565,7 +604,7 @@ def main(ctx):
         elif e.get("type") == "sort":
             check_sort(ctx, env, [e["case"]])
         elif e.get("type") == "meth":
-            pass
+            corpus_meth.append(e["case"])
     nseq = 2500 if thorough else 300
     for k in range(nseq):
         ops = gen_seq(rng, allow_fill=(k % 4 == 0))
@@ -606,12 +645,16 @@ def main(ctx):
     ctx.obligation("oracle:sort-stable-permutation", "correspondence", sagree, "")
 
     # 3. methods
-    exhaustive, nm = check_methods(ctx, env, rng, 20000 if thorough else 3500)
+    mcases, exhaustive = gen_method_cases(rng, 100000 if thorough else MQUICK)
+    nm = check_methods(ctx, env, corpus_meth + mcases)
     ctx.stats["method_sweep"] = {"cases": nm, "exhaustive_over_listed_domain": exhaustive}
     ctx.obligation("oracle:methods-fastpath=generic(metamorphic)", "correspondence",
                    not any(v["signature"].startswith(("method-", "frozen-")) for v in ctx.violations), "")
 
     ctx.stats["std_fastpath_final"] = env.stats["std_fastpath_final"]
+    ctx.stats["inconclusive_timeouts"] = {"count": len(INCONCLUSIVE), "lines": INCONCLUSIVE[:5]}
+    if INCONCLUSIVE:
+        ctx.log("inconclusive (timeout, retried once):", len(INCONCLUSIVE))
     ctx.assumptions += [
         "values are opaque identities to the array mechanism (parametricity); numbers/strings are C05/C06's concern",
         "the backing array beyond len(values) holds nil (array.go re-slices within cap)",
